@@ -429,7 +429,9 @@ Definition clean (l : lbuf) : lbuf :=
   {| slices := []; wpos := WNil; len := 0%Z; pinned := pinned l; curp := false; fromshm := true;
      recycled := recycled l; leases := leases l |}.
 (* recycle(): every slice of the list goes back (pinned ones do NOT), then clean() *)
-Definition lb_recycle (m : shm) (l : lbuf) : shm * lbuf := (recycle_all m (slices l), set_leases (clean l) []).
+Definition lb_recycle (m : shm) (l : lbuf) : shm * lbuf :=
+  let '(m1, l1) := clean_pinned m l in          (* since a234a74: the parked slices go back too *)
+  (recycle_all m1 (slices l1), set_leases (clean l1) []).
 
 (* appendBufferSlice *)
 Definition append_slice (l : lbuf) (s : slice) : lbuf :=
@@ -649,6 +651,7 @@ Inductive op :=
 | WAdopt (n : nat)   (* the send buffer starts with the reset slice ReleaseReadAndReuse leaves behind *)
 | RBytes (n : nat) | RPeek (n : nat) | RDiscard (n : nat) | RByte | RString (n : nat) | RRead (n : nat)
 | RRelease | RReleaseReuse | RClose
+| RPeerClose      (* the peer closed its end: the callback goroutine's sweep after the OnData loop *)
 | OAlloc (n : nat) | OFill (i : nat) (bs : list byte) | OFree (i : nat).
 
 Inductive res := RUnit | RN (n : nat) | RData (bs : list byte) | RB (b : byte).
@@ -660,10 +663,14 @@ Definition with_mem_rcv (s : sys) (m : shm) (l : lbuf) : sys :=
 
 (* Stream.Flush without queue/socket: done; fallback if the buffer left shm or the stream is in
    fallback state (sticky); the element lands in the receiver's pending list; clean() *)
-Definition flush (s : sys) : outcome sys :=
+(* [sticky]: the variant of the source (Gen/SwitchC07.v, translated from Stream.Flush): true = inFallbackState is
+   only ever set; false = it is assigned from the current buffer.  [flush] is the variant the proofs are about. *)
+Definition flush_gen (sticky : bool) (s : sys) : outcome sys :=
   if (len (snd s) =? 0)%Z then Ok s else
   do (m1, l1) <- lb_done (mem s) (snd s);
-  let fb := infb s || negb (fromshm l1) in
+  (* inFallbackState is sticky (Gen/SwitchC07.v, translated from Stream.Flush): once a flush went through the
+     socket every later flush of the stream does; the non-sticky variant assigns it from the current buffer *)
+  let fb := (sticky && infb s) || negb (fromshm l1) in
   if fb then
     let d := underlying m1 l1 in
     let '(m2, l2) := lb_recycle m1 l1 in
@@ -675,6 +682,8 @@ Definition flush (s : sys) : outcome sys :=
     | f :: _ => Ok {| mem := m1; snd := clean l1; infb := false; pend := pend s ++ [PRoot (off f)];
                       rcv := rcv s; oth := oth s |}
     end.
+
+Notation flush := (flush_gen true).
 
 (* Stream.readMore(n) without the waiting: moveTo when len < n; still short -> Blocked *)
 Definition read_more (n : nat) (s : sys) : outcome sys :=
@@ -689,7 +698,8 @@ Definition rd_op {A} (s : sys) (f : shm -> lbuf -> outcome (A * lbuf)) (g : A ->
   let '(m2, l2) := settle (mem s) l1 in
   Ok (g a, with_mem_rcv s m2 l2).
 
-Definition step (s : sys) (o : op) : outcome (res * sys) :=
+(* [sticky], [sweepc]: the variants of the source (Gen/SwitchC07.v, Gen/SwitchC08.v); [step] = the proved variant *)
+Definition step_gen (sticky sweepc : bool) (s : sys) (o : op) : outcome (res * sys) :=
   match o with
   | WBytes bs | WString bs =>
       do (n, m1, l1) <- write_bytes bs (mem s) (snd s); Ok (RN n, with_mem_snd s m1 l1)
@@ -699,9 +709,9 @@ Definition step (s : sys) (o : op) : outcome (res * sys) :=
       match bs with
       | [] => Ok (RN 0, s)
       | _ => do (n, m1, l1) <- write_bytes bs (mem s) (snd s);
-             do s2 <- flush (with_mem_snd s m1 l1); Ok (RN n, s2)
+             do s2 <- flush_gen sticky (with_mem_snd s m1 l1); Ok (RN n, s2)
       end
-  | WFlush => do s1 <- flush s; Ok (RUnit, s1)
+  | WFlush => do s1 <- flush_gen sticky s; Ok (RUnit, s1)
   | WAdopt n =>
       (* state after Stream.ReleaseReadAndReuse swapped an emptied receive buffer holding one reset shm
          slice into the send position: sliceList = [slice], writeSlice = slice, len = 0 *)
@@ -727,6 +737,10 @@ Definition step (s : sys) (o : op) : outcome (res * sys) :=
   | RRelease => let '(m1, l1) := release (mem s) (rcv s) in Ok (RUnit, with_mem_rcv s m1 l1)
   | RReleaseReuse => let '(m1, l1) := release_reserve (mem s) (rcv s) in Ok (RUnit, with_mem_rcv s m1 l1)
   | RClose => let '(m1, l1) := lb_recycle (mem s) (rcv s) in Ok (RUnit, with_mem_rcv s m1 l1)
+  | RPeerClose =>
+      (* half closed: the sweep (pendingData.clear + recvBuf.recycle) must NOT run (Gen/SwitchC08.v) *)
+      if sweepc then Ok (RUnit, s)
+      else let '(m1, l1) := lb_recycle (mem s) (rcv s) in Ok (RUnit, with_mem_rcv s m1 l1)
   | OAlloc n =>
       match allocShmBuffer (mem s) n with
       | Some (b, m1) => Ok (RN 1, {| mem := m1; snd := snd s; infb := infb s; pend := pend s; rcv := rcv s;
@@ -746,6 +760,7 @@ Definition step (s : sys) (o : op) : outcome (res * sys) :=
       | None => Ok (RUnit, s)
       end
   end.
+Notation step := (step_gen true true).
 
 (* ------------------------------------------------------------------------------------------ *)
 (* initial state: classes [(cap, count)] ascending, slot ids consecutive per class             *)
@@ -798,13 +813,13 @@ Inductive dop :=
 | DReuse (d : bool).           (* Stream.ReleaseReadAndReuse() on the stream that READS direction d *)
 
 Section Duplex.
-Variables need_len0 need_one : bool.
+Variables need_len0 need_one sticky sweepc : bool.
 
-Definition dstep (D : dsys) (o : dop) : outcome (res * dsys) :=
+Definition dstep_gen (D : dsys) (o : dop) : outcome (res * dsys) :=
   match o with
   | DOp d o =>
       let s := dview D d in
-      do (r, s') <- step s o;
+      do (r, s') <- step_gen sticky sweepc s o;
       (* pendingData.moveToWithoutLock sets inFallbackState of the READING stream for every fallback
          slice it moves: that stream's own sends (the other direction) use the socket from then on *)
       let movedfb := existsb is_fallback (pend s) && (match pend s' with [] => true | _ => false end) in
@@ -821,6 +836,8 @@ Definition dstep (D : dsys) (o : dop) : outcome (res * dsys) :=
                  else {| d_mem := m1; d_0 := h'; d_1 := o'; d_oth := d_oth D |})
   end.
 End Duplex.
+(* the variant the proofs are about: every switch as in the current source *)
+Notation dstep := (dstep_gen true true true true).
 
 Definition empty_half : half := {| h_snd := empty_buf; h_infb := false; h_pend := []; h_rcv := empty_buf |}.
 Definition init_dsys (cfg : list (nat * nat)) : dsys :=
